@@ -1601,7 +1601,7 @@ Section ExecHtml.
       match top_frame st with
       | Ok fr =>
           let entry := last (f_chain fr) (Tpl 0 [] true [] [] [] None false false) in
-          let mine := tpl_id entry =? owner in
+          let mine := existsb (fun t => tpl_id t =? owner) (f_chain fr) in
           let v1 := if mine && tpl_lstrip entry && before
                     then rev (dl (fun b => (b =? 9) || (b =? 32)) (rev val)) else val in
           let v2 := if mine && tpl_trim entry && after
@@ -1622,17 +1622,25 @@ Section ExecHtml.
 
   Definition no_tpl : template := Tpl 0 [] true [] [] [] None false false.
 
+  Lemma chain_owner_ids : forall (chain : list template) owner,
+    existsb (fun t => tpl_id t =? owner) chain = owned_by_chain (map tpl_id chain) owner.
+  Proof.
+    intros chain owner. unfold owned_by_chain.
+    induction chain as [|t chain IH]; [reflexivity|]. cbn [existsb map]. rewrite IH. reflexivity.
+  Qed.
+
   Lemma html_trim_spec_last : ws_table_ok token_space_chars = true ->
     forall f st fr owner val trimL trimR after before,
       top_frame st = Ok fr ->
       let entry := last (f_chain fr) no_tpl in
       exec_node se globals (S f) st (NHtml owner val trimL trimR after before) =
-        xok (trim_spec ((tpl_id entry =? owner) && tpl_trim entry)
-                       ((tpl_id entry =? owner) && tpl_lstrip entry)
+        xok (trim_spec (owned_by_chain (map tpl_id (f_chain fr)) owner && tpl_trim entry)
+                       (owned_by_chain (map tpl_id (f_chain fr)) owner && tpl_lstrip entry)
                        trimL trimR after before val) st.
   Proof.
     intros Hws f st fr owner val trimL trimR after before Htop entry.
     rewrite exec_node_S_html, Htop. cbv zeta. fold no_tpl. fold entry.
+    rewrite chain_owner_ids.
     unfold trim_spec. f_equal.
     rewrite !dl_spec, match_newline, <- !drop_trailing_rev.
     rewrite (drop_trailing_ext (fun b => (b =? 9) || (b =? 32)) is_blank)
@@ -1644,18 +1652,59 @@ Section ExecHtml.
     reflexivity.
   Qed.
 
-  (* the literal-text node writes exactly what the specification says, and changes nothing *)
+  (* the literal-text node writes exactly what the specification says, and changes nothing:
+     the options are those of the last template of the chain (the one that is executed) and
+     they are in force for the texts of every template of the chain *)
   Lemma html_trim_spec_gen : ws_table_ok token_space_chars = true ->
     forall f st fr pre entry owner val trimL trimR after before,
       top_frame st = Ok fr -> f_chain fr = pre ++ [entry] ->
       exec_node se globals (S f) st (NHtml owner val trimL trimR after before) =
-        xok (trim_spec ((tpl_id entry =? owner) && tpl_trim entry)
-                       ((tpl_id entry =? owner) && tpl_lstrip entry)
+        xok (trim_spec (owned_by_chain (map tpl_id (pre ++ [entry])) owner && tpl_trim entry)
+                       (owned_by_chain (map tpl_id (pre ++ [entry])) owner && tpl_lstrip entry)
                        trimL trimR after before val) st.
   Proof.
     intros Hws f st fr pre entry owner val trimL trimR after before Htop Hch.
     rewrite (html_trim_spec_last Hws f st fr owner val trimL trimR after before Htop).
     rewrite Hch, last_last. reflexivity.
+  Qed.
+
+  Lemma owned_by_chain_member : forall (chain : list template) m,
+    In m chain -> owned_by_chain (map tpl_id chain) (tpl_id m) = true.
+  Proof.
+    intros chain m Hin. unfold owned_by_chain. apply existsb_exists.
+    exists (tpl_id m). split; [apply in_map; exact Hin|apply N.eqb_refl].
+  Qed.
+
+  (* a text of ANY template of the chain is rewritten under the options of the last one *)
+  Lemma html_trim_spec_member_gen : ws_table_ok token_space_chars = true ->
+    forall f st fr pre entry m val trimL trimR after before,
+      top_frame st = Ok fr -> f_chain fr = pre ++ [entry] -> In m (pre ++ [entry]) ->
+      exec_node se globals (S f) st (NHtml (tpl_id m) val trimL trimR after before) =
+        xok (trim_spec (tpl_trim entry) (tpl_lstrip entry) trimL trimR after before val) st.
+  Proof.
+    intros Hws f st fr pre entry m val trimL trimR after before Htop Hch Hin.
+    rewrite (html_trim_spec_gen Hws f st fr pre entry _ val trimL trimR after before Htop Hch).
+    rewrite (owned_by_chain_member _ _ Hin). reflexivity.
+  Qed.
+
+  (* fix D42: the chain base <- ... <- child; the base's texts are treated like the child's *)
+  Lemma html_cover_parents_gen : ws_table_ok token_space_chars = true ->
+    forall f st fr base mid child val trimL trimR after before,
+      top_frame st = Ok fr -> f_chain fr = base :: mid ++ [child] ->
+      exec_node se globals (S f) st (NHtml (tpl_id base) val trimL trimR after before) =
+        xok (trim_spec (tpl_trim child) (tpl_lstrip child) trimL trimR after before val) st /\
+      exec_node se globals (S f) st (NHtml (tpl_id base) val trimL trimR after before) =
+      exec_node se globals (S f) st (NHtml (tpl_id child) val trimL trimR after before).
+  Proof.
+    intros Hws f st fr base mid child val trimL trimR after before Htop Hch.
+    change (base :: mid ++ [child]) with ((base :: mid) ++ [child]) in Hch.
+    assert (Hb : In base ((base :: mid) ++ [child])) by (left; reflexivity).
+    assert (Hc : In child ((base :: mid) ++ [child])) by (apply in_or_app; right; left; reflexivity).
+    pose proof (html_trim_spec_member_gen Hws f st fr (base :: mid) child base val
+                  trimL trimR after before Htop Hch Hb) as Eb.
+    pose proof (html_trim_spec_member_gen Hws f st fr (base :: mid) child child val
+                  trimL trimR after before Htop Hch Hc) as Ec.
+    split; [exact Eb|]. rewrite Eb, Ec. reflexivity.
   Qed.
 
   Lemma html_substring_gen : ws_table_ok token_space_chars = true ->
